@@ -60,6 +60,9 @@ pub struct Config {
     pub bitset_only: bool,
     #[serde(default = "two")]
     pub max_kills: u32,
+    /// ServerBuilder::system_exit(): the server also waits 300 ms after a stop before resolving
+    #[serde(default)]
+    pub system_exit: bool,
 }
 
 fn two() -> u32 {
@@ -711,6 +714,9 @@ async fn sim_main(sh: Rc<Shared>) -> Option<Violation> {
         .shutdown_timeout(cfg.shutdown_timeout_s);
     if !cfg.signals {
         builder = builder.disable_signals();
+    }
+    if cfg.system_exit {
+        builder = builder.system_exit();
     }
     let mut addrs = Vec::new();
     for (l, kind) in cfg.listeners.iter().enumerate() {
